@@ -26,7 +26,7 @@ import (
 func init() {
 	register(&Check{ID: "C16", Level: "fault_enumeration",
 		Rule: "exchanges through upstream.NewUpstream(\"udp://127.0.0.1:p\" | \"127.0.0.1:p\" | dial_addr with an unresolvable / dead URL host) against a fake server on one port; every exchange has a unique random question (name, type, class) and one script cell " +
-			"{udp: tc|ok|silent} x {tcp: ok|refuse|silent|garbage|close|slow (reply 700 ms after a 250-500 ms deadline)} (all 18 cells, equally often), 12-32 concurrent callers, context deadlines 400-1000 ms against silent legs; plus a sequential series of TC=0 exchanges on a fresh upstream " +
+			"{udp: tc|ok|silent} x {tcp: ok|refuse|silent|garbage|close|slow (reply 700 ms after a 250-500 ms deadline)|okfin (reply, then FIN: later TCP legs meet a dead pooled connection)} (all 21 cells, equally often), a series of 70 failing TCP legs followed by a healthy one, 12-32 concurrent callers, context deadlines 400-1000 ms against silent legs; plus a sequential series of TC=0 exchanges on a fresh upstream " +
 			"after which the server must have accepted no TCP connection at all. One evaluation = one exchange. Distinct non-trivial cases = distinct tuples (address form, udp script, tcp script, qtype, qclass, outcome class, number of TCP arrivals of the question)",
 		Run: runC16})
 }
@@ -128,6 +128,8 @@ func c16NewEnv(group string) (*c16Env, error) {
 			switch ex.TCP {
 			case "silent":
 				return scripted.Action{Tag: "tcp-silent", Drop: true}
+			case "okfin": // answers, then closes the connection: the next TCP leg that reuses it finds it dead
+				return scripted.Action{Tag: "tcp-ok-fin", Leg: scripted.LegTCP, End: scripted.EndFIN}
 			case "slow": // answers, but only after the caller's deadline has passed
 				return scripted.Action{Tag: "tcp-slow", Leg: scripted.LegTCP, Delay: 700 * time.Millisecond}
 			case "garbage":
@@ -181,7 +183,7 @@ func (e *c16Env) close() {
 
 var c16Forms = []string{"udp://", "bare", "dialaddr-name", "dialaddr-ip"}
 var c16UDP = []string{"tc", "ok", "silent"}
-var c16TCP = []string{"ok", "refuse", "silent", "garbage", "close", "slow"}
+var c16TCP = []string{"ok", "refuse", "silent", "garbage", "close", "slow", "okfin"}
 var c16Types = []uint16{1, 28, 16, 15, 2, 5, 6, 12, 33, 65, 255, 257}
 var c16Classes = []uint16{1, 1, 1, 3, 4, 255}
 
@@ -339,7 +341,7 @@ func c16Judge(ex *c16Ex, lg *c16Logs) (sig, what string, soft bool) {
 			return "", "", false
 		}
 		switch ex.TCP {
-		case "ok":
+		case "ok", "okfin":
 			if !ex.Returned {
 				if len(tcpQ) == 0 {
 					return "no-tcp-retry-after-tc", fmt.Sprintf("exchange %q: UDP reply had TC=1 but the question never arrived over TCP; exchange failed: %s", ex.Name, ex.Err), true
@@ -370,7 +372,7 @@ func c16Judge(ex *c16Ex, lg *c16Logs) (sig, what string, soft bool) {
 
 func runC16(c *Ctx) {
 	upQuietRace(c)
-	pool.VerifSetQuarantine(0)
+	pool.VerifTakeReports()
 	if runtime.NumCPU() > 8 {
 		runtime.GOMAXPROCS(8)
 	}
@@ -414,7 +416,7 @@ func runC16(c *Ctx) {
 	exs := make([]*c16Ex, n)
 	for i := range exs {
 		r := gen.New(c.Seed, "c16", i)
-		cell := i % 18
+		cell := i % 21
 		exs[i] = c16Gen(r, i, c16UDP[cell%3], c16TCP[cell/3])
 	}
 	// shuffle so that the cells interleave in time
@@ -500,12 +502,22 @@ func runC16(c *Ctx) {
 	for g, e := range envs {
 		if e.tcp != nil {
 			c.Ev.Count("tcp_connections_accepted:"+g, int64(e.tcp.Accepts()))
-			c.Ev.Count("tcp_bad_frames_in", int64(e.tcp.Snapshot().BadFrames))
+			bad := e.tcp.Snapshot().BadFrames
+			c.Ev.Count("tcp_bad_frames_in", int64(bad))
+			// "the same query is re-sent over TCP": the TCP side only ever receives well-formed queries
+			// (every attempt of the transport included; a retry that sends a recycled buffer shows here)
+			if bad > 0 {
+				c.Violation("tcp-leg-sent-malformed-frame", fmt.Sprintf("the TCP side of the server received %d frame(s) that are not DNS queries", bad), c16Witness{Rule: "tcp-leg-sent-malformed-frame"})
+			}
 		}
+	}
+	for _, rp := range pool.VerifTakeReports() {
+		c.Violation("pool-report:"+rp.Kind+"@"+c01decTopSite(rp.Site), fmt.Sprintf("pool sanitizer during the fallback exchanges: %s at %s (first released at %s): the query buffer of the TCP leg is not exclusively owned", rp.Kind, rp.Site, rp.Site0), c16Witness{Rule: "pool-report"})
 	}
 
 	// sequential TC=0 series on a fresh upstream and server: no TCP connection at all
 	c16NoTCP(c)
+	c16AfterFailures(c)
 	c.Ev.Set("race_reports_logged_not_judged_here", upRaceReports(c))
 }
 
@@ -542,4 +554,68 @@ func c16NoTCP(c *Ctx) {
 	c.Ev.Count("sequential_tc0_exchanges", int64(n))
 	c.Ev.Count("sequential_tc0_exchanges_returned", int64(okN))
 	c.Ev.Count("sequential_tc0_tcp_connections_accepted", int64(e.tcp.Accepts()))
+}
+
+
+// c16AfterFailures: "whenever the UDP reply has TC set" also holds after many TCP legs have failed:
+// 70 truncated replies whose TCP leg fails at once (connection closed / refused), then truncated
+// replies with a healthy TCP side, which must be answered over TCP.
+func c16AfterFailures(c *Ctx) {
+	for _, g := range []string{"listen", "refuse"} {
+		e, err := c16NewEnv(g)
+		if err != nil {
+			c.Inconclusive("C16 setup: " + err.Error())
+			return
+		}
+		failKind := map[string]string{"listen": "close", "refuse": "refuse"}[g]
+		failed := 0
+		for i := 0; i < 70; i++ {
+			r := gen.New(c.Seed, "c16-fail-"+g, i)
+			ex := c16Gen(r, 700000+i, "tc", failKind)
+			ex.Form = "udp://"
+			ex.DeadMs = 1500
+			c16Do(e, ex)
+			c.Ev.Eval(1)
+			if !ex.Returned {
+				failed++
+			}
+		}
+		c.Ev.Count("failed_tcp_legs_in_a_row:"+g, int64(failed))
+		if g == "refuse" {
+			// nothing can succeed here; the series still has to end in time (judged by late-return)
+			r := gen.New(c.Seed, "c16-fail-last", 0)
+			ex := c16Gen(r, 700100, "tc", "refuse")
+			ex.Form, ex.DeadMs = "udp://", 1500
+			c16Do(e, ex)
+			if late := time.Duration(ex.TRet-ex.TCall) - 1500*time.Millisecond; late > -500*time.Millisecond {
+				c.Violation("tcp-leg-blocked-after-failures", fmt.Sprintf("after %d failed TCP legs, an exchange with a refused TCP leg took %v (deadline 1.5 s; a refused connection fails at once)", failed, time.Duration(ex.TRet-ex.TCall)), c16Witness{Exchange: ex, Rule: "tcp-leg-blocked-after-failures"})
+			} else {
+				c.Ev.Distinct("after-failures", g, "prompt")
+			}
+			e.close()
+			continue
+		}
+		okN := 0
+		var last *c16Ex
+		for i := 0; i < 3; i++ {
+			r := gen.New(c.Seed, "c16-after-fail", i)
+			ex := c16Gen(r, 700200+i, "tc", "ok")
+			ex.Form, ex.DeadMs = "udp://", 2000
+			c16Do(e, ex)
+			c.Ev.Eval(1)
+			last = ex
+			if ex.Returned && ex.Leg == "T" {
+				okN++
+			}
+		}
+		time.Sleep(20 * time.Millisecond)
+		lg := c16Collect(e)
+		if okN < 3 {
+			c.Violation("no-tcp-retry-after-tc:after-failed-legs", fmt.Sprintf("after %d truncated replies whose TCP leg failed, only %d of 3 further truncated replies were answered over a healthy TCP side (last: %s %s; its question arrived over TCP %d times)", failed, okN, last.ErrClass, last.Err, len(lg.tcpQ[last.Name])),
+				c16Witness{Exchange: last, Rule: "no-tcp-retry-after-tc:after-failed-legs", TCPSeen: lg.tcpQ[last.Name], UDPSent: lg.udpR[last.Name]})
+		} else {
+			c.Ev.Distinct("after-failures", g, "tcp-leg-works")
+		}
+		e.close()
+	}
 }
